@@ -425,6 +425,125 @@ Section Term.
   Qed.
   Print Assumptions ite_terminates.
 
+  (* ---------- above the bound the fuel is immaterial: one unit less gives the same result ---------- *)
+  (* (with `ite_S`, FuelMono.v: beyond the bound a result -- and hence also a failure -- does not depend on the fuel at all,
+     so a None there is never an out-of-fuel artefact; unlike `Stops`, this is informative for a finite table too) *)
+  Definition Down (L : N) (k : nat) (bound : nat) : Prop :=
+    forall s a b c ta tb tc r, Inv s -> CInv s -> V s a ta -> V s b tb -> V s c tc ->
+      allle L ta -> allle L tb -> allle L tc -> (mu L ta tb tc <= bound)%nat ->
+      ite (S k) s a b c = Some r -> ite k s a b c = Some r.
+
+  Lemma expand_down L k s f g h tf tg th n r : Inv s -> CInv s -> V s f tf -> V s g tg -> V s h th ->
+    allle L tf -> allle L tg -> allle L th -> idx f <> 1 -> (mu L tf tg th <= S n)%nat -> Down L k n ->
+    expand_code (S k) s f g h = Some r -> expand_code k s f g h = Some r.
+  Proof.
+    intros HI HC Vf Vg Vh Lf Lg Lh Hf Hmu HD.
+    assert (Core : forall f1 g2 h2 (nn : bool) t2 t3, V s f1 tf -> V s g2 t2 -> V s h2 t3 -> allle L t2 -> allle L t3 ->
+        idx f1 <> 1 -> mtop (top s f1) (top s g2) (top s h2) = mtop (top s f) (top s g) (top s h) ->
+        mu L tf t2 t3 = mu L tf tg th ->
+        match cget s (KIte f1 g2 h2) with
+        | Some r0 => Some (s, if nn then rneg r0 else r0)
+        | None =>
+          let m := mtop (top s f) (top s g) (top s h) in
+          let '(f0, f1') := top_cofactors s f1 m in
+          let '(g0, g1') := top_cofactors s g2 m in
+          let '(h0, h1') := top_cofactors s h2 m in
+          match ite (S k) s f0 g0 h0 with None => None | Some (s1, e) =>
+          match ite (S k) s1 f1' g1' h1' with None => None | Some (s2, t) =>
+          match mk_node s2 m e t with None => None | Some (s3, r0) =>
+            Some (cput s3 (KIte f1 g2 h2) r0, if nn then rneg r0 else r0) end end end
+        end = Some r ->
+        match cget s (KIte f1 g2 h2) with
+        | Some r0 => Some (s, if nn then rneg r0 else r0)
+        | None =>
+          let m := mtop (top s f) (top s g) (top s h) in
+          let '(f0, f1') := top_cofactors s f1 m in
+          let '(g0, g1') := top_cofactors s g2 m in
+          let '(h0, h1') := top_cofactors s h2 m in
+          match ite k s f0 g0 h0 with None => None | Some (s1, e) =>
+          match ite k s1 f1' g1' h1' with None => None | Some (s2, t) =>
+          match mk_node s2 m e t with None => None | Some (s3, r0) =>
+            Some (cput s3 (KIte f1 g2 h2) r0, if nn then rneg r0 else r0) end end end
+        end = Some r).
+    { intros f1 g2 h2 nn t2 t3 V1 V2 V3 L2 L3 Hf1 Em Emu.
+      destruct (cget s (KIte f1 g2 h2)); [auto|].
+      destruct (mtop_is_minlev L s f1 g2 h2 tf t2 t3 HI V1 V2 V3 Hf1 Lf L2 L3) as [Emin HmL]. rewrite Em in Emin, HmL.
+      destruct (mtop_ok s f1 g2 h2 tf t2 t3 HI V1 V2 V3 Hf1) as (Hm0 & Hm1 & Hm2 & Hm3). rewrite Em in *.
+      set (m := mtop (top s f) (top s g) (top s h)) in *. cbv zeta.
+      destruct (top_cofactors s f1 m) as [f0 f1'] eqn:T1. destruct (top_cofactors s g2 m) as [g0 g1'] eqn:T2. destruct (top_cofactors s h2 m) as [h0 h1'] eqn:T3.
+      destruct (tc_shape s f1 m tf f0 f1' HI V1 Hm1 T1) as (a0 & a1 & Va0 & Va1 & Aa0 & Aa1 & Sa).
+      destruct (tc_shape s g2 m t2 g0 g1' HI V2 Hm2 T2) as (b0 & b1 & Vb0 & Vb1 & Ab0 & Ab1 & Sb).
+      destruct (tc_shape s h2 m t3 h0 h1' HI V3 Hm3 T3) as (c0 & c1 & Vc0 & Vc1 & Ac0 & Ac1 & Sc).
+      destruct (lev_child L m tf a0 a1 Lf HmL Aa0 Aa1 Sa) as (La0 & La1 & Ea0 & Ea1).
+      destruct (lev_child L m t2 b0 b1 L2 HmL Ab0 Ab1 Sb) as (Lb0 & Lb1 & Eb0 & Eb1).
+      destruct (lev_child L m t3 c0 c1 L3 HmL Ac0 Ac1 Sc) as (Lc0 & Lc1 & Ec0 & Ec1).
+      assert (Hmu0 : (mu L a0 b0 c0 <= n)%nat) by (unfold mu in *; rewrite <- Emu in Hmu; rewrite <- Emin in Hmu; lia).
+      assert (Hmu1 : (mu L a1 b1 c1 <= n)%nat) by (unfold mu in *; rewrite <- Emu in Hmu; rewrite <- Emin in Hmu; lia).
+      destruct (ite (S k) s f0 g0 h0) as [[s1 e]|] eqn:I1; [|discriminate].
+      rewrite (HD s f0 g0 h0 a0 b0 c0 (s1, e) HI HC Va0 Vb0 Vc0 La0 Lb0 Lc0 Hmu0 I1).
+      destruct (ite_ok _ _ _ _ _ _ _ _ _ _ HI HC I1 Va0 Vb0 Vc0) as (HI1 & HC1 & E1 & _).
+      destruct (ite (S k) s1 f1' g1' h1') as [[s2 t]|] eqn:I2; [|discriminate].
+      rewrite (HD s1 f1' g1' h1' a1 b1 c1 (s2, t) HI1 HC1 (V_ext _ _ _ _ E1 Va1) (V_ext _ _ _ _ E1 Vb1) (V_ext _ _ _ _ E1 Vc1) La1 Lb1 Lc1 Hmu1 I2).
+      auto. }
+    unfold expand_code.
+    change (if top s h =? 0 then if top s g =? 0 then top s f else N.min (top s f) (top s g)
+            else N.min (if top s g =? 0 then top s f else N.min (top s f) (top s g)) (top s h))
+      with (mtop (top s f) (top s g) (top s h)).
+    assert (Tn : forall x, top s (rneg x) = top s x) by reflexivity.
+    assert (In : forall x, idx (rneg x) = idx x) by reflexivity.
+    assert (Msw : mu L tf th tg = mu L tf tg th) by (unfold mu; f_equal; lia).
+    destruct (neg f) eqn:Nf; [destruct (neg h) eqn:Nh|destruct (neg g) eqn:Ng].
+    - apply (Core (rneg f) (rneg h) (rneg g) true th tg); auto using V_neg. rewrite !Tn. apply mtop_comm.
+    - apply (Core (rneg f) h g false th tg); auto using V_neg. rewrite !Tn. apply mtop_comm.
+    - apply (Core f (rneg g) (rneg h) true tg th); auto using V_neg.
+    - apply (Core f g h false tg th); auto.
+  Qed.
+
+  Lemma stable_call_down L n k s f g h tf tg th r : Inv s -> CInv s -> V s f tf -> V s g tg -> V s h th ->
+    allle L tf -> allle L tg -> allle L th -> (mu L tf tg th <= S n)%nat -> Down L k n ->
+    match ite_action s f g h with ARet _ | AExpand => True | _ => False end ->
+    ite (S (S k)) s f g h = Some r -> ite (S k) s f g h = Some r.
+  Proof.
+    intros HI HC Vf Vg Vh Lf Lg Lh Hmu HD Hact. rewrite !ite_step.
+    destruct (ite_action s f g h) eqn:A; try contradiction; [auto|].
+    exact (expand_down L k s f g h tf tg th n r HI HC Vf Vg Vh Lf Lg Lh (expand_nonterm s f g h A) Hmu HD).
+  Qed.
+
+  Theorem ite_down L : forall n k, (3 * n + 3 <= k)%nat -> Down L k n.
+  Proof.
+    induction n as [|n IH]; intros k Hk s f g h tf tg th r HI HC Vf Vg Vh Lf Lg Lh Hmu.
+    - destruct k as [|k]; [lia|]. cbn [ite].
+      assert (tf = Leaf).
+      { destruct tf as [|v ? ? ?]; [reflexivity|exfalso]. destruct Lf as (Hv & _). unfold mu in Hmu. cbn [lev] in Hmu. lia. }
+      subst tf. destruct (top_leaf _ _ HI Vf) as [_ Ei].
+      assert (Ht : is_one f || is_zero f = true) by (rewrite term_idx; now apply N.eqb_eq).
+      destruct (is_one f); [auto|]. destruct (is_zero f); [auto|discriminate Ht].
+    - destruct k as [|[|[|k]]]; try lia.
+      assert (T0 : Down L k n) by (apply IH; lia). assert (T1 : Down L (S k) n) by (apply IH; lia). assert (T2 : Down L (S (S k)) n) by (apply IH; lia).
+      destruct (top_one s HI) as [To Tz].
+      rewrite (ite_step (S (S (S k)))), (ite_step (S (S k))). destruct (ite_action s f g h) as [r0|f1 g1 h1|f1 g1 h1|] eqn:A.
+      + auto.
+      + assert (Hfn : idx f <> 1).
+        { unfold ite_action in A. destruct (is_one f) eqn:C1; [discriminate|]. destruct (is_zero f) eqn:C2; [discriminate|]. exact (nonterm_of _ C1 C2). }
+        destruct (rewrite_args L s f g h tf tg th f1 g1 h1 HI Vf Vg Vh Lf Lg Lh (or_introl A)) as (t1 & t2 & t3 & V1 & V2 & V3 & L1 & L2 & L3 & Hm1).
+        pose proof (std_stable s f g h f1 g1 h1 To Tz Hfn A) as Hst.
+        rewrite (ite_step (S (S k))), (ite_step (S k)). destruct (ite_action s f1 g1 h1) as [r0|f2 g2 h2|f2 g2 h2|] eqn:A1; try contradiction.
+        * auto.
+        * assert (Hf1n : idx f1 <> 1).
+          { unfold ite_action in A1. destruct (is_one f1) eqn:C1; [discriminate|]. destruct (is_zero f1) eqn:C2; [discriminate|]. exact (nonterm_of _ C1 C2). }
+          destruct (rewrite_args L s f1 g1 h1 t1 t2 t3 f2 g2 h2 HI V1 V2 V3 L1 L2 L3 (or_intror A1)) as (u1 & u2 & u3 & U1 & U2 & U3 & M1 & M2 & M3 & Hm2).
+          apply (stable_call_down L n k s f2 g2 h2 u1 u2 u3 r HI HC U1 U2 U3 M1 M2 M3); [lia|exact T0|].
+          exact (swap_stable s f1 g1 h1 f2 g2 h2 To Tz Hf1n (swap_pre s g1 t2 HI V2) (swap_pre s h1 t3 HI V3) (swap_pre s f1 t1 HI V1 Hf1n) A1).
+        * apply (expand_down L (S k) s f1 g1 h1 t1 t2 t3 n r HI HC V1 V2 V3 L1 L2 L3 (expand_nonterm s f1 g1 h1 A1)); [lia|exact T1].
+      + assert (Hfn : idx f <> 1).
+        { unfold ite_action in A. destruct (is_one f) eqn:C1; [discriminate|]. destruct (is_zero f) eqn:C2; [discriminate|]. exact (nonterm_of _ C1 C2). }
+        destruct (rewrite_args L s f g h tf tg th f1 g1 h1 HI Vf Vg Vh Lf Lg Lh (or_intror A)) as (t1 & t2 & t3 & V1 & V2 & V3 & L1 & L2 & L3 & Hm1).
+        apply (stable_call_down L n (S k) s f1 g1 h1 t1 t2 t3 r HI HC V1 V2 V3 L1 L2 L3); [lia|exact T1|].
+        exact (swap_stable s f g h f1 g1 h1 To Tz Hfn (swap_pre s g tg HI Vg) (swap_pre s h th HI Vh) (swap_pre s f tf HI Vf Hfn) A).
+      + exact (expand_down L (S (S k)) s f g h tf tg th n r HI HC Vf Vg Vh Lf Lg Lh (expand_nonterm s f g h A) Hmu T2).
+  Qed.
+  Print Assumptions ite_down.
+
   (* the special case of a store that never fills: plain termination *)
   Corollary ite_terminates_total L n k : (forall s nd, put s nd <> None) -> (3 * n + 3 <= k)%nat ->
     forall s a b c ta tb tc, Inv s -> CInv s -> V s a ta -> V s b tb -> V s c tc ->
